@@ -156,6 +156,10 @@ where
         if !normalization.is_normal() || !normalization.is_sign_positive() {
             return Err(());
         }
+        if !probs.iter().all(|&probability| probability >= F::zero()) {
+            // Negative entries (or NaN) could otherwise cancel out in `normalization`.
+            return Err(());
+        }
 
         let scale = AsPrimitive::<F>::as_(remaining_free_weight.as_()) / normalization;
 
